@@ -114,6 +114,9 @@ class JSONValidator:
             return True, None
         except json.JSONDecodeError as e:
             return False, f"Invalid JSON: {e}"
+        except RecursionError:
+            # Pathologically nested input exhausts the parser's stack: reject it
+            return False, "JSON nesting too deep to parse"
 
     def _measure_depth(self, obj, current: int = 0) -> int:
         """Measure nesting depth of JSON object."""
